@@ -173,9 +173,9 @@ func (s *Sys) deliverRecv(dst *world.Chain, signer world.Account, msgs []sdk.Msg
 
 // relayerBalances sums the fee-token balances of every account that may relay.
 func (s *Sys) relayerBalances(c *world.Chain, t *transfer) int64 {
-	n := s.feeBalance(c, t, c.Accounts["r1"]).Int64() + s.feeBalance(c, t, c.Accounts["r2"]).Int64()
+	n := s.units(s.tokenOf(t), s.feeBalance(c, t, c.Accounts["r1"])) + s.units(s.tokenOf(t), s.feeBalance(c, t, c.Accounts["r2"]))
 	if s.cfg.TSS {
-		n += s.feeBalance(c, t, c.Accounts["u2"]).Int64()
+		n += s.units(s.tokenOf(t), s.feeBalance(c, t, c.Accounts["u2"]))
 	}
 	return n
 }
@@ -336,7 +336,7 @@ func (s *Sys) locks(c *world.Chain) map[string]int64 {
 	for name, tk := range s.chainTokens(c.Name) {
 		for _, d := range append(append([]string{}, s.w.Order...), "nochain-77") {
 			if d != c.Name {
-				out[name+"|"+d] = c.OutTokens(tk, d).Int64()
+				out[name+"|"+d] = s.units(tk, c.OutTokens(tk, d))
 			}
 		}
 	}
